@@ -28,6 +28,7 @@
  Rn arg roles     : a variable named like a parameter of the callee is handed to that parameter (no exchanged roles).
  R8 design helpers: span walk class pairs (shared with C08-R7); dual-stage composite p_max / gain (shared with C04-R9).
  Rz sentinel      : fields defaulted when None are None when absent from the input (loader .get without another default).
+ R9 ROADM input  : upstream walk sums losses; upstream ROADM target read for the degree the walk came from.
 """
 import ast
 
@@ -278,6 +279,13 @@ def r4_voa(ctx):
     a = f.params[0]
     eg, dp, ov, iv = (ev.exit_field(f'{a}.{x}') for x in ('effective_gain', 'delta_p', 'out_voa', 'in_voa'))
     conds = gamma_conds(eg) | gamma_conds(ov) | gamma_conds(dp)
+    other = [c for c in conds if c.startswith('isnone(') and 'out_voa' in c and c != f'isnone({a}.out_voa)']
+    if other and f'isnone({a}.out_voa)' not in conds:
+        ctx.bad('R4.voa', f'{site(f)} gate', key(f, 'voa-gate'),
+                f'the automatic output VOA is (re)computed when `{other[0][7:-1]}` is None instead of when the amplifier\'s current out_voa is '
+                'None: a second design overwrites the VOA while gain and offset still contain the first one (the budget and p_max break)')
+        ctx.need('R4.voa', 1)
+        return
     c_none = pick(conds, f'isnone({a}.out_voa)')
     c_auto = pick(conds, 'out_voa_auto')
     E0, D0 = fld(f'{a}.effective_gain'), fld(f'{a}.delta_p')
@@ -461,6 +469,14 @@ def rs_sentinel(ctx):
     ctx.need('Rz.sentinel', 2)
 
 
+def r_roadm_input(ctx):
+    """R9: reference power at each ROADM ingress: upstream walk, losses summed, the upstream ROADM's target read for the degree the
+    walk came from, stored under this ROADM's ingress element"""
+    from .common import roadm_input_rule
+    roadm_input_rule(ctx, 'R9.roadm-input', 'the designed reference power and loss of the ROADM would not match what propagation delivers')
+    ctx.need('R9.roadm-input', 3)
+
+
 from ..memo import rule_for as _memo_rule
 
 RULES_MEMO = ('Rm.memo', _memo_rule('C09', 'the operating point designed for another element or reference would be reused'))
@@ -470,4 +486,4 @@ from ..presence import rule_for as _presence_rule
 
 RULES_PRESENCE = ('Rp.presence', _presence_rule('C09', 'a configured power / gain / VOA of exactly 0 would be replaced by another value in the budget'))
 
-RULES = [('R6.span-loss', r6_span_loss), ('R1.budget', r1_budget), ('R2.rule', r2_rule), ('R3.saturation', r3_saturation), ('R4.voa', r4_voa), ('R5.chaining', r5_chaining), RULES_MEMO, RULES_PRESENCE, ('Rv.verbose-pure', rv_verbose), ('Re.for-each', re_foreach), ('R7.selected-budget', r7_selected_budget), ('Rn.arg-roles', rn_arg_roles), ('R8.design-helpers', r8_design_helpers), ('Rz.sentinel', rs_sentinel)]
+RULES = [('R6.span-loss', r6_span_loss), ('R1.budget', r1_budget), ('R2.rule', r2_rule), ('R3.saturation', r3_saturation), ('R4.voa', r4_voa), ('R5.chaining', r5_chaining), RULES_MEMO, RULES_PRESENCE, ('Rv.verbose-pure', rv_verbose), ('Re.for-each', re_foreach), ('R7.selected-budget', r7_selected_budget), ('Rn.arg-roles', rn_arg_roles), ('R8.design-helpers', r8_design_helpers), ('Rz.sentinel', rs_sentinel), ('R9.roadm-input', r_roadm_input)]
